@@ -136,6 +136,25 @@ void stats_init(void)
 }
 
 /**
+ * @brief Count the GVT records which the node and all of its threads have in common
+ * @return the number of complete rows available in the temporary files
+ *
+ * A thread which leaves the main loop early completes the last GVT reduction in gvt_msg_drain(), where the value is
+ * discarded: its temporary file is then one record shorter than the others. Only complete rows are dumped, so that the
+ * documented invariant n_siz / 16 == t_siz / (s_cnt * 8) holds for every thread.
+ */
+static int64_t stats_common_records_count(void)
+{
+	fseek(stats_node_tmp, 0, SEEK_END);
+	int64_t ret = ftell(stats_node_tmp) / (int64_t)sizeof(struct stats_node);
+	for(rid_t i = 0; i < global_config.n_threads; ++i) {
+		fseek(stats_tmps[i], 0, SEEK_END);
+		ret = min(ret, ftell(stats_tmps[i]) / (int64_t)sizeof(struct stats_thread));
+	}
+	return ret;
+}
+
+/**
  * @brief Collect and dump the statistics from other nodes in the final binary file
  * @param[out] out_f a pointer to the file to write. This can be NULL: the data from other nodes won't be saved
  *
@@ -174,15 +193,15 @@ static void stats_files_send(void)
 	stats_glob_cur.timestamps[STATS_GLOBAL_HR_TOTAL] = timer_hr_value(sim_start_ts_hr);
 	mpi_blocking_data_send(&stats_glob_cur, sizeof(stats_glob_cur), 0);
 
-	int64_t f_size;
+	int64_t f_size, recs = stats_common_records_count();
 	void *f_buf = file_memory_load(stats_node_tmp, &f_size);
-	f_size = min(INT_MAX, f_size);
+	f_size = min(INT_MAX, min(f_size, recs * (int64_t)sizeof(struct stats_node)));
 	mpi_blocking_data_send(f_buf, f_size, 0);
 	mm_free(f_buf);
 
 	for(rid_t i = 0; i < global_config.n_threads; ++i) {
 		f_buf = file_memory_load(stats_tmps[i], &f_size);
-		f_size = min(INT_MAX, f_size);
+		f_size = min(INT_MAX, min(f_size, recs * (int64_t)sizeof(struct stats_thread)));
 		mpi_blocking_data_send(f_buf, f_size, 0);
 		mm_free(f_buf);
 	}
@@ -270,14 +289,16 @@ static void stats_file_final_write(FILE *out_f)
 	stats_glob_cur.timestamps[STATS_GLOBAL_HR_TOTAL] = timer_hr_value(sim_start_ts_hr);
 	file_write_chunk(out_f, &stats_glob_cur, sizeof(stats_glob_cur));
 
-	int64_t buf_size;
+	int64_t buf_size, recs = stats_common_records_count();
 	void *buf = file_memory_load(stats_node_tmp, &buf_size);
+	buf_size = min(buf_size, recs * (int64_t)sizeof(struct stats_node));
 	file_write_chunk(out_f, &buf_size, sizeof(buf_size));
 	file_write_chunk(out_f, buf, buf_size);
 	mm_free(buf);
 
 	for(rid_t i = 0; i < global_config.n_threads; ++i) {
 		buf = file_memory_load(stats_tmps[i], &buf_size);
+		buf_size = min(buf_size, recs * (int64_t)sizeof(struct stats_thread));
 		file_write_chunk(out_f, &buf_size, sizeof(buf_size));
 		file_write_chunk(out_f, buf, buf_size);
 		mm_free(buf);
